@@ -182,6 +182,16 @@ Theorem C11_appends :
                     end.
 Proof. exact validate_appends. Qed.
 
+(* the block is dated after the previous tip: AddBlock refuses it otherwise *)
+Theorem C11_produced_after_tip :
+  forall (value_fn : N -> bool -> Z -> N) (addr_of : string -> string) (sig_ok : input -> bool)
+         (H : block -> hash) (gen_id : slice input -> slice output -> Z -> string)
+         (St : settings) (validator : string) (n : node) (ts : Z) (perm : list nat)
+         (n' : node) (d : list (string * drop)),
+    validate value_fn addr_of sig_ok H gen_id St validator n ts perm = (n', Produced d) ->
+    chain (n_c n) <> [] -> last_block_ts (chain (n_c n)) < ts.
+Proof. exact validate_produced_after_tip. Qed.
+
 (* none twice *)
 Theorem C11_kept_nodup :
   forall (value_fn : N -> bool -> Z -> N) (addr_of : string -> string) (sig_ok : input -> bool)
@@ -227,14 +237,35 @@ Theorem C11_refused_unchanged :
                  end).
 Proof. exact validate_refused_unchanged. Qed.
 
-(* stronger, for the sequential model: AddBlock repeats the check Validate made on its copy, so
-   it cannot fail; a refused Validate leaves the whole node (pool order included) as it was,
-   and the three reasons are: same tick, missed tick, the previous tip does not apply *)
+(* stronger, for the sequential model: AddBlock refuses a block that is not dated after the tip,
+   and otherwise repeats the check Validate made on its copy, so it cannot fail there. A refused
+   Validate either leaves the whole node (pool order included) as it was, for one of three
+   reasons: same tick, missed tick, the previous tip does not apply; or the tick is not after
+   the tip and has passed the two tick tests (it is before the tip, or the tip is dated 0 and the
+   tick is not positive): AddBlock refuses it and the pool is left shuffled *)
+Theorem C11_refused_cases :
+  forall (value_fn : N -> bool -> Z -> N) (addr_of : string -> string) (sig_ok : input -> bool)
+         (H : block -> hash) (gen_id : slice input -> slice output -> Z -> string)
+         (St : settings) (validator : string) (n : node) (ts : Z) (perm : list nat)
+         (n' : node) (e : err),
+    validate value_fn addr_of sig_ok H gen_id St validator n ts perm = (n', Refused e) ->
+    (n' = n /\
+     (e = ESameTick \/ e = EMissedTick \/
+      update_utxos (ur (n_c n)) (last_block_txs (chain (n_c n))) (last_block_ts (chain (n_c n))) = Err e)) \/
+    (e = ETime /\ chain (n_c n) <> [] /\ ts <= last_block_ts (chain (n_c n)) /\
+     n' = mkNode (n_c n) (match n_pool n with
+                          | Some _ => Some (permute perm (elems (n_pool n)))
+                          | None => None
+                          end)).
+Proof. exact validate_refused_cases. Qed.
+
+(* in particular, for a tick after the tip (or on an empty chain) *)
 Theorem C11_refused_same :
   forall (value_fn : N -> bool -> Z -> N) (addr_of : string -> string) (sig_ok : input -> bool)
          (H : block -> hash) (gen_id : slice input -> slice output -> Z -> string)
          (St : settings) (validator : string) (n : node) (ts : Z) (perm : list nat)
          (n' : node) (e : err),
+    chain (n_c n) = [] \/ last_block_ts (chain (n_c n)) < ts ->
     validate value_fn addr_of sig_ok H gen_id St validator n ts perm = (n', Refused e) ->
     n' = n /\
     (e = ESameTick \/ e = EMissedTick \/
@@ -304,6 +335,28 @@ Example C11_accept_then_produce :
     validate v ao so Ho go St "v"%string (fst r) 18 [] = (fst r, Refused EMissedTick).
 Proof. vm_compute. repeat split. Qed.
 
+(* a tick before the tip (chain dated 7, 12; tick 9) passes the two tick tests and is refused by
+   AddBlock: the chain state is kept and the two pooled transactions are left in shuffled order *)
+Example C11_tick_before_tip_refused :
+  let St := mkSettings 5 1 100 10 in
+  let v := (fun (x : N) (_ : bool) (_ : Z) => x) in
+  let ao := (fun k : string => k) in
+  let so := (fun _ : input => true) in
+  let Ho := (fun _ : block => zero_hash) in
+  let go := (fun (_ : slice input) (_ : slice output) (ts : Z) =>
+               if ts =? 7 then "r7"%string else "r12"%string) in
+  let n1 := fst (validate v ao so Ho go St "v"%string node_empty 7 []) in
+  let n2 := fst (validate v ao so Ho go St "v"%string n1 12 []) in
+  let ta := mkTx "ta"%string None (Some [mkOutput "w"%string false 0%N]) 12 in
+  let tb := mkTx "tb"%string None (Some [mkOutput "w"%string false 0%N]) 13 in
+  let n3 := mkNode (n_c n2) (Some [ta; tb]) in
+  let r := validate v ao so Ho go St "v"%string n3 9 [1%nat; 0%nat] in
+    map b_ts (chain (n_c n3)) = [7; 12] /\
+    snd r = Refused ETime /\
+    n_c (fst r) = n_c n3 /\
+    pool_ids (fst r) = ["tb"%string; "ta"%string].
+Proof. vm_compute. repeat split. Qed.
+
 Print Assumptions C11_admission_sound.
 Print Assumptions C11_admission_complete.
 Print Assumptions C11_admission_ids.
@@ -316,10 +369,12 @@ Print Assumptions C11_reward_sum_exact.
 Print Assumptions C11_produced.
 Print Assumptions C11_one_reward.
 Print Assumptions C11_appends.
+Print Assumptions C11_produced_after_tip.
 Print Assumptions C11_kept_nodup.
 Print Assumptions C11_permute_nodup.
 Print Assumptions C11_tries_all.
 Print Assumptions C11_refused_unchanged.
+Print Assumptions C11_refused_cases.
 Print Assumptions C11_refused_same.
 Print Assumptions C11_same_tick.
 Print Assumptions C11_missed_tick.
